@@ -1,6 +1,17 @@
 namespace Cl
 abbrev Bytes := List Nat
 
+/-! # M-Client: `GeminiClientProtocol` / `TitanClientProtocol` (client/protocol.py)
+
+`connection_made` / `send_request` are in M-Session (Misc/Tofu.lean); this file models the receiving
+side: `data_received`, `_parse_header`, `connection_lost`.  Both protocol classes have the same logic
+(`TitanClientProtocol` has no `decode_text` switch: it always decodes, `decodeText = true`).
+
+Parameters (opaque library behaviour, `Env`): UTF-8 decoding of the header line, `int()` on the
+status token, the text/* test on the meta and `bytes.decode(charset)` on the body.
+Environment contract (asyncio): nothing is delivered after `transport.close()` or after the connection
+is lost; an exception escaping `data_received` makes the transport call `connection_lost(exc)`. -/
+
 def maxBody : Nat := 10 * 1024 * 1024
 def maxHeader : Nat := 2 + 1 + 1024
 
@@ -8,6 +19,30 @@ def findCRLF : Bytes → Option Nat
   | [] => none
   | [_] => none
   | a :: b :: rest => if a = 13 ∧ b = 10 then some 0 else (findCRLF (b :: rest)).map (· + 1)
+
+/-- tail-recursive form used by the compiled driver (header lines of many megabytes) -/
+def findGo : Bytes → Nat → Option Nat
+  | [], _ => none
+  | [_], _ => none
+  | a :: b :: rest, n => if a = 13 ∧ b = 10 then some n else findGo (b :: rest) (n + 1)
+
+theorem findGo_eq (l : Bytes) (n : Nat) : findGo l n = (findCRLF l).map (· + n) := by
+  fun_induction findCRLF l generalizing n with
+  | case1 => rfl
+  | case2 => rfl
+  | case3 a b rest hc => simp [findGo, hc]
+  | case4 a b rest hc ih =>
+    rw [findGo, if_neg hc, ih (n + 1)]
+    cases findCRLF (b :: rest) with
+    | none => rfl
+    | some j => simp; omega
+
+def findCRLFTR (l : Bytes) : Option Nat := findGo l 0
+
+@[csimp] theorem findCRLF_eq_findGo : @findCRLF = @findCRLFTR := by
+  funext l
+  rw [findCRLFTR, findGo_eq]
+  cases findCRLF l <;> simp
 
 /-- opaque library behaviour the protocol depends on -/
 structure Env where
@@ -17,11 +52,13 @@ structure Env where
   parseInt : Bytes → Option Int
   /-- meta says text/* (or is empty) -/
   isText : Bytes → Bool
-  /-- decoding the body with the charset named in the meta: 0 = ok, 1 = bad bytes, 2 = unknown label -/
+  /-- decoding the body with the charset named in the meta:
+      0 = ok, 1 = UnicodeDecodeError, 2 = LookupError (unknown label), anything else = another codec exception -/
   decodeBody : Bytes → Bytes → Nat
 
 inductive Fut where
   | pending
+  /-- `body = some b`: the bytes after the first CRLF; `decoded`: they were decoded with the declared charset -/
   | response (status : Int) (mta : Bytes) (body : Option Bytes) (decoded : Bool)
   | error (kind : String)
 deriving Repr, DecidableEq
@@ -32,8 +69,9 @@ structure CSt where
   status : Option Int := none
   mta : Bytes := []
   fut : Fut := .pending
-  closeReq : Bool := false
+  closeReq : Bool := false      -- the protocol called `transport.close()`
   crashed : Bool := false       -- an exception escaped `data_received` (asyncio then aborts the transport)
+  lost : Bool := false          -- `connection_lost` was called
   decodeText : Bool := true
 deriving Repr
 
@@ -41,6 +79,8 @@ inductive CEv where
   | data (c : Bytes)
   | lost (exc : Bool)
 deriving Repr
+
+def init (decodeText : Bool) : CSt := { decodeText := decodeText }
 
 def setError (s : CSt) (k : String) : CSt := if s.fut = .pending then { s with fut := .error k } else s
 
@@ -51,78 +91,106 @@ def splitSpace (h : Bytes) : Bytes × Bytes :=
 
 /-- `_parse_header` -/
 def parseHeader (env : Env) (s : CSt) (h : Bytes) : CSt :=
-  let (tok, m) := splitSpace h
-  match env.parseInt tok with
+  match env.parseInt (splitSpace h).1 with
   | none => setError s "badStatus"
   | some st =>
-    let s := { s with status := some st, mta := m }
-    if 10 ≤ st ∧ st < 70 then s else setError s "statusRange"
+    if 10 ≤ st ∧ st < 70 then { s with status := some st, mta := (splitSpace h).2 }
+    else setError { s with status := some st, mta := (splitSpace h).2 } "statusRange"
 
 def capCheck (s : CSt) : CSt :=
   if s.buf.length > maxBody then { setError s "tooBig" with closeReq := true } else s
 
-/-- `data_received` (repaired: header-length bound) -/
-def onData (env : Env) (s : CSt) (c : Bytes) : CSt :=
-  if s.closeReq ∨ s.crashed then s else   -- the transport delivers nothing after close()
-  let s := { s with buf := s.buf ++ c }
-  if !s.headerReceived then
-    match findCRLF s.buf with
-    | none =>
-      if s.buf.length > maxHeader + 1 then { setError s "headerTooLong" with headerReceived := true, closeReq := true }
-      else capCheck s
-    | some i =>
-      if i > maxHeader then { setError s "headerTooLong" with headerReceived := true, closeReq := true }
-      else
-        let line := s.buf.take i
-        if !env.utf8Ok line then { s with crashed := true }
-        else
-          let s := parseHeader env s line
-          let s := { s with buf := s.buf.drop (i + 2), headerReceived := true }
-          match s.status with
-          | none => { s with closeReq := true }
-          | some st => if 20 ≤ st ∧ st < 30 then capCheck s else capCheck { s with closeReq := true }
-  else capCheck s
+/-- header line longer than the protocol allows -/
+def tooLong (s : CSt) : CSt := { setError s "headerTooLong" with headerReceived := true, closeReq := true }
 
-/-- `connection_lost` -/
-def onLost (env : Env) (s : CSt) (exc : Bool) : CSt :=
-  if s.fut ≠ .pending then s
-  else if exc then { s with fut := .error "connection" }
+/-- `header_line.decode("utf-8")` raised inside `data_received`: asyncio aborts the transport and calls
+    `connection_lost(exc)`, which hands the exception to the caller -/
+def crash (s : CSt) : CSt := { setError s "headerUtf8" with crashed := true }
+
+/-- after `_parse_header`: close on a parse failure or a non-2x status (and look at nothing else of
+    this read); otherwise the size cap applies to the body so far -/
+def afterHeader (s : CSt) : CSt :=
+  match s.status with
+  | none => { s with closeReq := true }
+  | some st => if 20 ≤ st ∧ st < 30 then capCheck s else { s with closeReq := true }
+
+/-- the buffer holds a complete header line ending at index `i` -/
+def onHeader (env : Env) (s : CSt) (i : Nat) : CSt :=
+  if env.utf8Ok (s.buf.take i) then
+    afterHeader { parseHeader env s (s.buf.take i) with buf := s.buf.drop (i + 2), headerReceived := true }
+  else crash s
+
+/-- `data_received` -/
+def onData (env : Env) (s : CSt) (c : Bytes) : CSt :=
+  if s.closeReq ∨ s.crashed ∨ s.lost then s     -- the transport delivers nothing after close() / abort / loss
+  else if s.headerReceived then capCheck { s with buf := s.buf ++ c }
+  else match findCRLF (s.buf ++ c) with
+    | none =>
+      if (s.buf ++ c).length > maxHeader + 1 then tooLong { s with buf := s.buf ++ c }
+      else capCheck { s with buf := s.buf ++ c }
+    | some i =>
+      if i > maxHeader then tooLong { s with buf := s.buf ++ c }
+      else onHeader env { s with buf := s.buf ++ c } i
+
+/-- body decoding at the end of a 2x response -/
+def deliver (env : Env) (s : CSt) (st : Int) : CSt :=
+  if env.isText s.mta ∧ s.decodeText then
+    match env.decodeBody s.mta s.buf with
+    | 0 => { s with fut := .response st s.mta (some s.buf) true }
+    | 1 => { s with fut := .error "decode" }
+    | 2 => { s with fut := .error "charset" }
+    | _ => { s with fut := .error "codec" }
+  else { s with fut := .response st s.mta (some s.buf) false }
+
+/-- `connection_lost`, the future still pending -/
+def resolve (env : Env) (s : CSt) (exc : Bool) : CSt :=
+  if exc then { s with fut := .error "connection" }
   else if !s.headerReceived then { s with fut := .error "closedEarly" }
   else match s.status with
     | none => { s with fut := .error "internal" }     -- unreachable: status None ⇒ error already set
     | some st =>
-      if 20 ≤ st ∧ st < 30 then
-        if env.isText s.mta ∧ s.decodeText then
-          match env.decodeBody s.mta s.buf with
-          | 0 => { s with fut := .response st s.mta (some s.buf) true }
-          | 1 => { s with fut := .error "decode" }
-          | _ => { s with fut := .error "charset" }
-        else { s with fut := .response st s.mta (some s.buf) false }
+      if 20 ≤ st ∧ st < 30 then deliver env s st
       else { s with fut := .response st s.mta none false }
+
+/-- `connection_lost` -/
+def onLost (env : Env) (s : CSt) (exc : Bool) : CSt :=
+  if s.fut ≠ .pending then { s with lost := true }
+  else { resolve env s exc with lost := true }
 
 def cstep (env : Env) (s : CSt) : CEv → CSt
   | .data c => onData env s c
-  | .lost e => onLost env s (e || s.crashed)
+  | .lost e => onLost env s e
 
-def crun (env : Env) (evs : List CEv) : CSt := evs.foldl (cstep env) {}
+def crunFrom (env : Env) (s : CSt) (evs : List CEv) : CSt := evs.foldl (cstep env) s
+def crun (env : Env) (evs : List CEv) : CSt := crunFrom env (init true) evs
 
-/-- C13: once the connection is lost, the caller's future is resolved — for every server byte
-    stream, every segmentation, every behaviour of the codecs -/
-theorem lost_resolves (env : Env) (s : CSt) (e : Bool) : (cstep env s (.lost e)).fut ≠ .pending := by
-  simp only [cstep, onLost]
+/-! ## termination: a lost connection always resolves the call -/
+
+theorem deliver_resolved (env : Env) (s : CSt) (st : Int) : (deliver env s st).fut ≠ .pending := by
+  unfold deliver
   split
-  · assumption
+  · split <;> simp
+  · simp
+
+theorem resolve_resolved (env : Env) (s : CSt) (e : Bool) : (resolve env s e).fut ≠ .pending := by
+  unfold resolve
+  split
+  · simp
   · split
     · simp
     · split
       · simp
       · split
+        · exact deliver_resolved env _ _
         · simp
-        · split
-          · split
-            · split <;> simp
-            · simp
-          · simp
+
+/-- C13: once the connection is lost, the caller's future is resolved — for every state the protocol
+    can be in and every behaviour of the codecs -/
+theorem lost_resolves (env : Env) (s : CSt) (e : Bool) : (cstep env s (.lost e)).fut ≠ .pending := by
+  simp only [cstep, onLost]
+  split
+  · assumption
+  · exact resolve_resolved env s e
 
 theorem setError_keep (s : CSt) (k : String) (h : s.fut ≠ .pending) : (setError s k).fut = s.fut := by
   unfold setError; rw [if_neg h]
@@ -132,41 +200,54 @@ theorem capCheck_keep (s : CSt) (h : s.fut ≠ .pending) : (capCheck s).fut = s.
   · exact setError_keep s _ h
   · rfl
 
+theorem tooLong_keep (s : CSt) (h : s.fut ≠ .pending) : (tooLong s).fut = s.fut := setError_keep s _ h
+
+theorem crash_keep (s : CSt) (h : s.fut ≠ .pending) : (crash s).fut = s.fut := setError_keep s _ h
+
 theorem parseHeader_keep (env : Env) (s : CSt) (l : Bytes) (h : s.fut ≠ .pending) :
     (parseHeader env s l).fut = s.fut := by
   unfold parseHeader
-  simp only
   split
   · exact setError_keep s _ h
   · split
     · rfl
     · exact setError_keep _ _ h
 
+theorem afterHeader_keep (s : CSt) (h : s.fut ≠ .pending) : (afterHeader s).fut = s.fut := by
+  unfold afterHeader
+  split
+  · rfl
+  · split
+    · exact capCheck_keep s h
+    · rfl
+
+theorem onHeader_keep (env : Env) (s : CSt) (i : Nat) (h : s.fut ≠ .pending) : (onHeader env s i).fut = s.fut := by
+  unfold onHeader
+  split
+  · have hp := parseHeader_keep env s (s.buf.take i) h
+    rw [afterHeader_keep _ (by simpa [hp] using h)]
+    exact hp
+  · exact crash_keep s h
+
+theorem onData_keep (env : Env) (s : CSt) (c : Bytes) (h : s.fut ≠ .pending) : (onData env s c).fut = s.fut := by
+  unfold onData
+  split
+  · rfl
+  · split
+    · exact capCheck_keep { s with buf := s.buf ++ c } h
+    · split
+      · split
+        · exact tooLong_keep { s with buf := s.buf ++ c } h
+        · exact capCheck_keep { s with buf := s.buf ++ c } h
+      · split
+        · exact tooLong_keep { s with buf := s.buf ++ c } h
+        · exact onHeader_keep env { s with buf := s.buf ++ c } _ h
+
 /-- a resolved future is never touched again -/
 theorem fut_stable (env : Env) (s : CSt) (ev : CEv) (h : s.fut ≠ .pending) : (cstep env s ev).fut = s.fut := by
   cases ev with
   | lost e => simp [cstep, onLost, h]
-  | data c =>
-    simp only [cstep, onData]
-    split
-    · rfl
-    · split
-      · split
-        · split
-          · exact setError_keep { s with buf := s.buf ++ c } _ h
-          · exact capCheck_keep { s with buf := s.buf ++ c } h
-        · split
-          · exact setError_keep { s with buf := s.buf ++ c } _ h
-          · rename_i i _ _
-            split
-            · rfl
-            · have hp := parseHeader_keep env { s with buf := s.buf ++ c } ((s.buf ++ c).take i) h
-              split
-              · exact hp
-              · split
-                · rw [capCheck_keep _ (by simpa [hp] using h)]; exact hp
-                · rw [capCheck_keep _ (by simpa [hp] using h)]; exact hp
-      · exact capCheck_keep { s with buf := s.buf ++ c } h
+  | data c => exact onData_keep env s c h
 
 theorem run_stable (env : Env) (s : CSt) (evs : List CEv) (h : s.fut ≠ .pending) :
     (evs.foldl (cstep env) s).fut = s.fut := by
@@ -179,19 +260,18 @@ theorem run_stable (env : Env) (s : CSt) (evs : List CEv) (h : s.fut ≠ .pendin
 
 /-- C13 (termination): in every history that contains a connection loss, the call has a result —
     whatever the server sent, however it was segmented, whatever the codecs do -/
-theorem resolves_after_lost (env : Env) (pre post : List CEv) (e : Bool) :
-    (crun env (pre ++ [.lost e] ++ post)).fut ≠ .pending := by
-  unfold crun
+theorem resolves_after_lost (env : Env) (s0 : CSt) (pre post : List CEv) (e : Bool) :
+    (crunFrom env s0 (pre ++ [.lost e] ++ post)).fut ≠ .pending := by
+  unfold crunFrom
   rw [List.foldl_append, List.foldl_append]
   simp only [List.foldl_cons, List.foldl_nil]
-  have h := lost_resolves env (pre.foldl (cstep env) {}) e
+  have h := lost_resolves env (pre.foldl (cstep env) s0) e
   rw [run_stable env _ post h]; exact h
 
 example : (crun ⟨fun _ => true, fun _ => some 20, fun _ => true, fun _ _ => 2⟩
     [.data [50, 48, 32, 120, 13, 10, 104, 105], .lost false]).fut = .error "charset" := by decide
-end Cl
 
-namespace Cl
+/-! ## a parsed status is in range while the call is pending; responses come from `connection_lost` -/
 
 /-- while the call is still pending, a parsed status is in range -/
 def StatusInv (s : CSt) : Prop := ∀ st, s.status = some st → s.fut = .pending → 10 ≤ st ∧ st < 70
@@ -199,23 +279,23 @@ def StatusInv (s : CSt) : Prop := ∀ st, s.status = some st → s.fut = .pendin
 theorem setError_status (s : CSt) (k : String) : (setError s k).status = s.status := by
   unfold setError; split <;> rfl
 
-theorem capCheck_status (s : CSt) : (capCheck s).status = s.status := by
-  unfold capCheck; split
-  · exact setError_status s _
-  · rfl
-
 theorem setError_header (s : CSt) (k : String) : (setError s k).headerReceived = s.headerReceived := by
   unfold setError; split <;> rfl
-
-theorem capCheck_header (s : CSt) : (capCheck s).headerReceived = s.headerReceived := by
-  unfold capCheck; split
-  · exact setError_header s _
-  · rfl
 
 theorem setError_pending (s : CSt) (k : String) : (setError s k).fut ≠ .pending := by
   unfold setError; split
   · simp
   · assumption
+
+theorem capCheck_status (s : CSt) : (capCheck s).status = s.status := by
+  unfold capCheck; split
+  · exact setError_status s _
+  · rfl
+
+theorem capCheck_header (s : CSt) : (capCheck s).headerReceived = s.headerReceived := by
+  unfold capCheck; split
+  · exact setError_header s _
+  · rfl
 
 theorem capCheck_pending (s : CSt) (h : (capCheck s).fut = .pending) : s.fut = .pending := by
   unfold capCheck at h
@@ -225,7 +305,6 @@ theorem capCheck_pending (s : CSt) (h : (capCheck s).fut = .pending) : s.fut = .
 
 theorem parseHeader_inv (env : Env) (s : CSt) (l : Bytes) (hs : s.status = none) : StatusInv (parseHeader env s l) := by
   unfold parseHeader
-  simp only
   split
   · intro st h1 _; rw [setError_status, hs] at h1; simp at h1
   · rename_i st hst
@@ -236,140 +315,171 @@ theorem parseHeader_inv (env : Env) (s : CSt) (l : Bytes) (hs : s.status = none)
     · intro st' _ h2
       exact absurd h2 (setError_pending _ _)
 
-theorem cstep_inv (env : Env) (s : CSt) (ev : CEv) (h : StatusInv s) (hh : s.headerReceived = false → s.status = none) :
-    StatusInv (cstep env s ev) ∧ ((cstep env s ev).headerReceived = false → (cstep env s ev).status = none) := by
+theorem afterHeader_status (s : CSt) : (afterHeader s).status = s.status := by
+  unfold afterHeader
+  split
+  · rfl
+  · split
+    · exact capCheck_status s
+    · rfl
+
+theorem afterHeader_header (s : CSt) : (afterHeader s).headerReceived = s.headerReceived := by
+  unfold afterHeader
+  split
+  · rfl
+  · split
+    · exact capCheck_header s
+    · rfl
+
+theorem afterHeader_pending (s : CSt) (h : (afterHeader s).fut = .pending) : s.fut = .pending := by
+  unfold afterHeader at h
+  split at h
+  · exact h
+  · split at h
+    · exact capCheck_pending s h
+    · exact h
+
+/-- invariant of every step: status in range while pending; no status before the header -/
+def Inv (s : CSt) : Prop := StatusInv s ∧ (s.headerReceived = false → s.status = none)
+
+theorem onHeader_inv (env : Env) (s : CSt) (i : Nat) (hs : s.status = none) (hh : s.headerReceived = false) :
+    Inv (onHeader env s i) := by
+  unfold onHeader
+  split
+  · have hpi := parseHeader_inv env s (s.buf.take i) hs
+    refine ⟨fun st h1 h2 => ?_, fun hf => ?_⟩
+    · rw [afterHeader_status] at h1
+      have h3 := afterHeader_pending _ h2
+      exact hpi st h1 h3
+    · rw [afterHeader_header] at hf; simp at hf
+  · refine ⟨fun st h1 h2 => ?_, fun _ => ?_⟩
+    · exact absurd h2 (setError_pending _ _)
+    · simp only [crash]; rw [setError_status]; exact hs
+
+theorem tooLong_inv (s : CSt) : Inv (tooLong s) :=
+  ⟨fun _ _ h2 => absurd h2 (setError_pending _ _), fun hf => by simp [tooLong] at hf⟩
+
+theorem capCheck_inv (s : CSt) (h : Inv s) : Inv (capCheck s) := by
+  refine ⟨fun st h1 h2 => ?_, fun hf => ?_⟩
+  · rw [capCheck_status] at h1; exact h.1 st h1 (capCheck_pending s h2)
+  · rw [capCheck_header] at hf; rw [capCheck_status]; exact h.2 hf
+
+theorem cstep_inv (env : Env) (s : CSt) (ev : CEv) (h : Inv s) : Inv (cstep env s ev) := by
   cases ev with
   | lost e =>
     simp only [cstep, onLost]
     split
-    · exact ⟨h, hh⟩
-    · rename_i hp
-      have hp' : s.fut = .pending := by simpa using hp
-      split
-      · exact ⟨fun st h1 h2 => by simp at h2, hh⟩
-      · split
-        · exact ⟨fun st h1 h2 => by simp at h2, hh⟩
+    · exact ⟨fun st h1 h2 => h.1 st h1 h2, fun hf => h.2 hf⟩
+    · refine ⟨fun st h1 h2 => absurd h2 (resolve_resolved env s e), fun hf => ?_⟩
+      have hr : (resolve env s e).headerReceived = s.headerReceived ∧ (resolve env s e).status = s.status := by
+        unfold resolve
+        split
+        · exact ⟨rfl, rfl⟩
         · split
-          · exact ⟨fun st h1 h2 => by simp at h2, hh⟩
+          · exact ⟨rfl, rfl⟩
           · split
+            · exact ⟨rfl, rfl⟩
             · split
-              · split <;> exact ⟨fun st h1 h2 => by simp at h2, hh⟩
-              · exact ⟨fun st h1 h2 => by simp at h2, hh⟩
-            · exact ⟨fun st h1 h2 => by simp at h2, hh⟩
+              · unfold deliver; split
+                · split <;> exact ⟨rfl, rfl⟩
+                · exact ⟨rfl, rfl⟩
+              · exact ⟨rfl, rfl⟩
+      simp only at hf ⊢
+      rw [hr.2]; exact h.2 (by rw [← hr.1]; exact hf)
   | data c =>
     simp only [cstep, onData]
     split
-    · exact ⟨h, hh⟩
+    · exact h
     · split
+      · rename_i hr
+        refine capCheck_inv _ ⟨fun st h1 h2 => h.1 st h1 h2, fun hf => ?_⟩
+        simp only at hf; rw [hf] at hr; simp at hr
       · rename_i hnr
-        have hsn : s.status = none := hh (by simpa using hnr)
+        have hh : s.headerReceived = false := by simpa using hnr
+        have hsn : s.status = none := h.2 hh
         split
         · split
-          · refine ⟨fun st h1 h2 => absurd h2 (setError_pending _ _), fun hf => by simp at hf⟩
-          · refine ⟨fun st h1 h2 => ?_, fun _ => ?_⟩
-            · rw [capCheck_status] at h1; simp [hsn] at h1
-            · rw [capCheck_status]; exact hsn
+          · exact tooLong_inv _
+          · exact capCheck_inv _ ⟨fun st h1 _ => by simp [hsn] at h1, fun _ => hsn⟩
         · split
-          · refine ⟨fun st h1 h2 => absurd h2 (setError_pending _ _), fun hf => by simp at hf⟩
-          · rename_i i _ _
-            split
-            · exact ⟨fun st h1 h2 => by simp [hsn] at h1, fun _ => hsn⟩
-            · have hpi := parseHeader_inv env { s with buf := s.buf ++ c } ((s.buf ++ c).take i) hsn
-              split
-              · exact ⟨fun st h1 h2 => hpi st h1 h2, fun hf => by simp at hf⟩
-              · split
-                · refine ⟨fun st h1 h2 => ?_, fun hf => ?_⟩
-                  · rw [capCheck_status] at h1
-                    have hx := capCheck_pending _ h2
-                    exact hpi st h1 hx
-                  · rw [capCheck_header] at hf; simp at hf
-                · refine ⟨fun st h1 h2 => ?_, fun hf => ?_⟩
-                  · rw [capCheck_status] at h1
-                    have hx := capCheck_pending _ h2
-                    exact hpi st h1 hx
-                  · rw [capCheck_header] at hf; simp at hf
-      · rename_i hr
-        refine ⟨fun st h1 h2 => ?_, fun hf => ?_⟩
-        · rw [capCheck_status] at h1
-          have hx := capCheck_pending _ h2
-          exact h st h1 hx
-        · exfalso
-          rw [capCheck_header] at hf
-          simp only at hf
-          simp [hf] at hr
-end Cl
+          · exact tooLong_inv _
+          · exact onHeader_inv env _ _ hsn hh
 
-namespace Cl
+theorem run_inv_from (env : Env) (s : CSt) (evs : List CEv) (h : Inv s) : Inv (crunFrom env s evs) := by
+  unfold crunFrom
+  induction evs generalizing s with
+  | nil => exact h
+  | cons e es ih => exact ih _ (cstep_inv env s e h)
+
+theorem init_inv (dt : Bool) : Inv (init dt) := ⟨fun st h => by simp [init] at h, fun _ => rfl⟩
 
 theorem run_inv (env : Env) (evs : List CEv) :
-    StatusInv (crun env evs) ∧ ((crun env evs).headerReceived = false → (crun env evs).status = none) := by
-  unfold crun
-  have : ∀ s : CSt, (StatusInv s ∧ (s.headerReceived = false → s.status = none)) →
-      StatusInv (evs.foldl (cstep env) s) ∧ ((evs.foldl (cstep env) s).headerReceived = false → (evs.foldl (cstep env) s).status = none) := by
-    induction evs with
-    | nil => intro s h; exact h
-    | cons e es ih => intro s h; exact ih _ (cstep_inv env s e h.1 h.2)
-  exact this {} ⟨fun st h => by simp at h, fun _ => rfl⟩
+    StatusInv (crun env evs) ∧ ((crun env evs).headerReceived = false → (crun env evs).status = none) :=
+  run_inv_from env _ evs (init_inv true)
 
-/-- a response is produced only by `connection_lost`, from the status parsed earlier -/
+/-! ### `data_received` only ever sets errors -/
+def NoResp (f : Fut) : Prop := f = .pending ∨ ∃ k, f = .error k
+
+theorem setError_noResp (s : CSt) (k : String) (h : NoResp s.fut) : NoResp (setError s k).fut := by
+  unfold setError; split
+  · exact Or.inr ⟨k, rfl⟩
+  · exact h
+
+theorem capCheck_noResp (s : CSt) (h : NoResp s.fut) : NoResp (capCheck s).fut := by
+  unfold capCheck; split
+  · exact setError_noResp s _ h
+  · exact h
+
+theorem parseHeader_noResp (env : Env) (s : CSt) (l : Bytes) (h : NoResp s.fut) : NoResp (parseHeader env s l).fut := by
+  unfold parseHeader
+  split
+  · exact setError_noResp s _ h
+  · split
+    · exact h
+    · exact setError_noResp _ _ h
+
+theorem afterHeader_noResp (s : CSt) (h : NoResp s.fut) : NoResp (afterHeader s).fut := by
+  unfold afterHeader
+  split
+  · exact h
+  · split
+    · exact capCheck_noResp s h
+    · exact h
+
+theorem onData_noResp (env : Env) (s : CSt) (c : Bytes) (h : NoResp s.fut) : NoResp (onData env s c).fut := by
+  unfold onData
+  split
+  · exact h
+  · split
+    · exact capCheck_noResp _ h
+    · split
+      · split
+        · exact setError_noResp _ _ h
+        · exact capCheck_noResp _ h
+      · split
+        · exact setError_noResp _ _ h
+        · unfold onHeader
+          split
+          · exact afterHeader_noResp _ (parseHeader_noResp env _ _ h)
+          · exact setError_noResp _ _ h
+
+/-- a response is produced only by `connection_lost`, from the status parsed earlier; it carries a body
+    exactly for 2x, and that body is the buffer (the bytes received after the header line) -/
 theorem response_origin (env : Env) (s : CSt) (ev : CEv) (hp : s.fut = .pending) (st : Int) (m : Bytes) (b : Option Bytes) (d : Bool)
     (h : (cstep env s ev).fut = .response st m b d) :
-    s.status = some st ∧ (b ≠ none ↔ (20 ≤ st ∧ st < 30)) := by
+    s.status = some st ∧ m = s.mta ∧ (b ≠ none ↔ (20 ≤ st ∧ st < 30)) ∧ (∀ x, b = some x → x = s.buf) := by
   cases ev with
   | data c =>
     exfalso
-    -- `data_received` only ever sets errors
-    have hne : ∀ (t : CSt) (k : String), t.fut = .pending → (setError t k).fut = .error k := by
-      intro t k ht; unfold setError; rw [if_pos ht]
-    have hcap : ∀ t : CSt, t.fut = .pending → ∀ st m b d, (capCheck t).fut ≠ .response st m b d := by
-      intro t ht st m b d
-      unfold capCheck; split
-      · simp only; rw [hne t _ ht]; simp
-      · rw [ht]; simp
-    simp only [cstep, onData] at h
-    split at h
-    · rw [hp] at h; simp at h
-    · split at h
-      · split at h
-        · split at h
-          · simp only at h; rw [hne _ _ (by simpa using hp)] at h; simp at h
-          · exact hcap _ (by simpa using hp) _ _ _ _ h
-        · split at h
-          · simp only at h; rw [hne _ _ (by simpa using hp)] at h; simp at h
-          · rename_i i _ _
-            split at h
-            · simp only at h; rw [hp] at h; simp at h
-            · -- after the header was parsed the future is pending or an error, never a response
-              have hph : ∀ l, (parseHeader env { s with buf := s.buf ++ c } l).fut = .pending ∨
-                  ∃ k, (parseHeader env { s with buf := s.buf ++ c } l).fut = .error k := by
-                intro l
-                unfold parseHeader; simp only
-                split
-                · right; exact ⟨_, hne _ _ (by simpa using hp)⟩
-                · split
-                  · left; simpa using hp
-                  · right; exact ⟨_, hne _ _ (by simpa using hp)⟩
-              rcases hph ((s.buf ++ c).take i) with hq | ⟨k, hq⟩
-              · split at h
-                · simp only at h; rw [hq] at h; simp at h
-                · split at h
-                  · exact hcap _ (by simpa using hq) _ _ _ _ h
-                  · exact hcap _ (by simpa using hq) _ _ _ _ h
-              · have hk : ∀ t : CSt, t.fut = .error k → (capCheck t).fut = .error k := by
-                  intro t ht; unfold capCheck; split
-                  · simp only; unfold setError; rw [ht]; simp [ht]
-                  · exact ht
-                split at h
-                · simp only at h; rw [hq] at h; simp at h
-                · split at h
-                  · rw [hk _ (by simpa using hq)] at h; simp at h
-                  · rw [hk _ (by simpa using hq)] at h; simp at h
-      · exact hcap _ (by simpa using hp) _ _ _ _ h
+    rcases onData_noResp env s c (Or.inl hp) with h1 | ⟨k, h1⟩
+    · simp only [cstep] at h; rw [h1] at h; cases h
+    · simp only [cstep] at h; rw [h1] at h; cases h
   | lost e =>
     simp only [cstep, onLost] at h
     split at h
     · rename_i hn; exact absurd hp hn
-    · split at h
+    · simp only [resolve] at h
+      split at h
       · simp at h
       · split at h
         · simp at h
@@ -378,13 +488,17 @@ theorem response_origin (env : Env) (s : CSt) (ev : CEv) (hp : s.fut = .pending)
           · rename_i st' hst
             split at h
             · rename_i h2x
+              simp only [deliver] at h
               split at h
               · split at h
-                · simp at h; obtain ⟨rfl, _, rfl, _⟩ := h; exact ⟨hst, by simp [h2x]⟩
+                · simp at h; obtain ⟨rfl, rfl, rfl, _⟩ := h
+                  exact ⟨hst, rfl, by simp [h2x], fun x hx => by simpa using hx.symm⟩
                 · simp at h
                 · simp at h
-              · simp at h; obtain ⟨rfl, _, rfl, _⟩ := h; exact ⟨hst, by simp [h2x]⟩
+                · simp at h
+              · simp at h; obtain ⟨rfl, rfl, rfl, _⟩ := h
+                exact ⟨hst, rfl, by simp [h2x], fun x hx => by simpa using hx.symm⟩
             · rename_i h2x
-              simp at h; obtain ⟨rfl, _, rfl, _⟩ := h
-              exact ⟨hst, by simpa using h2x⟩
+              simp at h; obtain ⟨rfl, rfl, rfl, _⟩ := h
+              exact ⟨hst, rfl, by simpa using h2x, fun x hx => by simp at hx⟩
 end Cl
